@@ -217,11 +217,11 @@ func (t *tr) expr(e ast.Expr) string {
 			}
 		case "time.Until":
 			if len(x.Args) == 1 {
-				return "(I64.sub " + t.expr(x.Args[0]) + " now_)"
+				return "(T.sub " + t.expr(x.Args[0]) + " now_)"
 			}
 		case "time.Since":
 			if len(x.Args) == 1 {
-				return "(I64.sub now_ " + t.expr(x.Args[0]) + ")"
+				return "(T.sub now_ " + t.expr(x.Args[0]) + ")"
 			}
 		}
 		// calls of other regenerated kernels (Spec.Calls)
@@ -259,9 +259,10 @@ func (t *tr) expr(e ast.Expr) string {
 					return "(decide (" + t.expr(sel.X) + " = " + t.expr(x.Args[0]) + "))"
 				}
 			case "Add":
-				// time.Time.Add(d): instants and durations are both Int nanoseconds
+				// time.Time.Add(d): an instant is an unbounded Int of nanoseconds (time.Time's range is far larger than
+				// int64 nanoseconds and Add saturates only at its ends); time.Until/Since/Sub saturate to int64 (T.sub)
 				if len(x.Args) == 1 {
-					return "(I64.add " + t.expr(sel.X) + " " + t.expr(x.Args[0]) + ")"
+					return "(T.add " + t.expr(sel.X) + " " + t.expr(x.Args[0]) + ")"
 				}
 			}
 		}
